@@ -45,9 +45,13 @@ int snprintf(char *str, size_t size, const char *fmt, ...)
     }
 #endif
     str[p] = 0;
+#ifndef VERIF_ASPRINTF
     if (mine) verif_last_nul = (size_t)(str - verif_buf) + p;
+#endif
   }
+#ifndef VERIF_ASPRINTF
   if (mine) verif_snprintf_sum += ret;
+#endif
   return ret;
 }
 #endif
